@@ -902,7 +902,8 @@ def case_global_relayout(case):
     from xdsl.dialects import builtin, memref
     from xdsl.parser import Parser
 
-    shape, layout_txt, ety, via_msc = case
+    shape, layout_txt, ety, via_msc = case[:4]
+    second = len(case) > 4 and case[4]  # a second memref.get_global of the same symbol, read by another consumer
     n = 1
     for d in shape:
         n *= d
@@ -934,10 +935,12 @@ builtin.module {{
     %g = memref.get_global @w : {FT}
 {chain}
     "test.op"(%c) {{tag = 1 : i32}} : ({LT}) -> ()
+SECOND_REFERENCE
     func.return
   }}
 }}
 """
+    src = src.replace("SECOND_REFERENCE", f'    %g2 = memref.get_global @w : {FT}\n    "test.op"(%g2) {{tag = 2 : i32}} : ({FT}) -> ()' if second else "")
 
     def fn():
         E = eng()
@@ -946,6 +949,12 @@ builtin.module {{
         m.verify()
         xshim.apply_passes(m, "realize-memref-casts", main)
         m.verify()
+        # every reference to a global names a global that exists, with the type it is read as
+        globs = {o.sym_name.data: o for o in m.walk() if isinstance(o, memref.GlobalOp)}
+        for gg_ in [o for o in m.walk() if isinstance(o, memref.GetGlobalOp)]:
+            nm_ = gg_.name_.string_value()
+            E.oblige("global:every_reference_names_an_existing_global_of_its_type", nm_ in globs and globs[nm_].type == gg_.results[0].type,
+                     dict(symbol=nm_, existing=sorted(globs)))
         use = [o for o in m.walk() if o.name == "test.op"][0]
         v = use.operands[0]
         hops = []
@@ -1304,6 +1313,7 @@ def run(chk):
     for k, (shape, txt, _, _) in enumerate(lays):
         if len(shape) <= 2 and (not quick or k % 2 == 0):
             glob.append((shape, txt, ("i8", "i32", "f32", "f64", "i16", "f16", "index")[k % 7], k % 3 == 0))
+    glob += [g_ + (True,) for g_ in glob[:4]]
     chk.add_results("global_relayout", pmap(case_global_relayout, glob, chunks=4))
     sg = []
     for gshape, tile, lay in (((16, 16), (8, 8), "#tsl.tsl<[8] -> (8), [8] -> (1)>"), ((16, 16), (8, 8), "#tsl.tsl<[2, 4] -> (32, 4), [2, 4] -> (16, 1)>"),
